@@ -19,7 +19,8 @@ TECHNIQUE = ("runtime monitoring: real ball devices against an independent physi
 RULE = ("case = generated topology x physics seed x fault schedule (failure runs 0..max_eject_attempts+1) x holds of "
         "the ball_eject_attempt queue event x script of requests (ball start, ball save with/without eject_delay and "
         "balls_to_save 1/2/3/unlimited, multiball start/add incl. bursts of close drains under an active save, lock "
-        "release, request_ball, game end collect) with "
+        "release, request_ball, manual eject events incl. second/third requests while the first eject is still "
+        "running on a 2-ball launcher whose first kicks fail, game end collect) with "
         "rest points; distinct = topology kind, ball count, op-kind sequence, fault pattern; non-trivial = a frozen "
         "horizon was reached and the idle and delivery clauses were evaluated with at least one request issued")
 LEVEL_TEXT = ("Exploration of a liveness property restated as bounded progress: 'eventually' is decided H=300 virtual "
